@@ -250,6 +250,9 @@ class WSStream:
                 await self.app_put({"type": "websocket.connect"})
         elif isinstance(event, (Body, Data)) and not self.handshake.accepted:
             if self.state == ASGIWebsocketState.HANDSHAKE:
+                # Closed first, the application must not answer the
+                # handshake whilst the 400 is being sent.
+                self.closed = True
                 await self._send_error_response(400)
                 await self._close_after_error()
             # Otherwise a HTTP response (the rejection of the
